@@ -1273,8 +1273,9 @@ func isPemTypeLoad(v ssa.Value) bool {
 	return ok && fieldOfAddr(fa).Name() == "Type" && typeIs(fa.X.Type().Underlying().(*types.Pointer).Elem(), "encoding/pem", "Block")
 }
 
-// reCutLine: string(Cut(Cut(content, prefix)#1, "\n")#0) for bytes.Cut or strings.Cut
-var reCutLine = regexp.MustCompile(`^(?:conv:string\()?(?:bytes|strings)\.Cut\((?:bytes|strings)\.Cut\((.*)\|(?:conv:\[\]byte\()?K\("([^"]*)"\)\)?\)#1\|(?:K\(10\)|(?:conv:\[\]byte\()?K\("\\n"\)\)?)\)#0\)?$`)
+// reCutLine: string(Cut(Cut(content, prefix)#1, "\n")#0) for bytes.Cut or strings.Cut, possibly trimmed of white space
+// (the base64 alphabet has none)
+var reCutLine = regexp.MustCompile(`^(?:conv:string\()?(?:(?:bytes|strings)\.TrimSpace\()?(?:bytes|strings)\.Cut\((?:bytes|strings)\.Cut\((.*)\|(?:conv:\[\]byte\()?K\("([^"]*)"\)\)?\)#1\|(?:K\(10\)|(?:conv:\[\]byte\()?K\("\\n"\)\)?)\)#0\)?\)?$`)
 
 func ruleTabHashLine(c *Ctx, r *Rep) {
 	ev := c.evaluator()
